@@ -347,7 +347,7 @@ def check(cx):
                  "(or `literal op column`) into an index bound pushes onto the side and with the inclusiveness the operator "
                  "means: = start&end inclusive; col>lit / lit<col start exclusive; col>=lit / lit<=col start inclusive; "
                  "col<lit / lit>col end exclusive; col<=lit / lit>=col end inclusive; every other operator reaches the "
-                 "residual predicate", floor=12)
+                 "residual predicate; the bound value is the literal as written (never cast to the column type)", floor=13)
     CB = "sql::planner::rules::FilterToIndexScanRule::collect_bounds"
     f = cx.guard(r6, "collect_bounds", p.fn, CB)
     if f:
@@ -435,6 +435,14 @@ def check(cx):
             cx.verdict(any(push_target(c) == "residual" and c.bb in reach for c in pushes), r6,
                        "%s:other-operators" % ("col-op-lit" if side == "left" else "lit-op-col"), f.where(),
                        "other operators reach residual.push", "operators without a bound arm are dropped instead of being kept as residual")
+        # the bound carries the literal as written: DataType::try_cast truncates (DOUBLE 2.5 -> INT 2), so a literal that is
+        # cast to the column type turns `v < 2.5` into `v < 2` with no residual to re-check
+        fam = [g for g in p.fns.values() if g.impl_adt == "sql::planner::rules::FilterToIndexScanRule" or (g.root or "").startswith("sql::planner::rules::FilterToIndexScanRule::")]
+        casts = sorted({"%s in %s" % (c.callee.rsplit("::", 1)[-1], g.id.rsplit("::", 1)[-1]) for g in fam for c in g.calls()
+                        if c.callee.rsplit("::", 1)[-1] in ("try_cast", "cast", "try_cast_to") and ("types::" in c.callee or "TypeCast" in c.callee)})
+        cx.verdict(not casts, r6, "bound-is-the-literal", f.where(), "no cast between the literal and the bound (%d functions)" % len(fam),
+                   "the index-bound extraction casts the literal (%s): a fractional or out-of-range constant is truncated to the column "
+                   "type and the index scan answers a different predicate than the filter it replaces" % ", ".join(casts))
         if seen_sides != {"left", "right"}:
             cx.bad(r6, "sides", f.where(), "expected one operator table per operand order, found %s" % sorted(seen_sides))
 
